@@ -14,13 +14,17 @@ import (
 	"package-operator.run/internal/packages/zzverif/world"
 )
 
-func system(n int, mask uint, classes []string, pauses int, drifts int) *world.System {
+func system(n int, mask uint, classes []string, pauses int, drifts int, celProbes ...bool) *world.System {
+	probes := world.StdProbes()
+	if len(celProbes) > 0 && celProbes[0] {
+		probes = world.CELProbes()
+	}
 	cfg := osw.B1(n, mask)
 	return &world.System{
 		Name: fmt.Sprintf("B1 phases=%d delegated=%03b pauses=%d drifts=%d", n, mask, pauses, drifts),
 		Init: func() *world.World {
 			w := osw.NewWorld()
-			w.MustCreate(world.NewObjectSet("r1", osw.PhaseSpecs(cfg, 1), world.StdProbes()))
+			w.MustCreate(world.NewObjectSet("r1", osw.PhaseSpecs(cfg, 1), probes))
 			w.Budget["user-pause"] = pauses
 			w.Budget["drift"] = drifts
 			return w
@@ -74,6 +78,15 @@ func Check(before *world.World, _ world.Event, pass *world.Pass, after *world.Wo
 	probe := osw.RefProbe
 	if len(prl) == 0 {
 		probe = func(map[string]any) bool { return true }
+	} else if strings.Contains(kmodel.Digest(map[string]any{"p": pr}), "self.status.conditions.exists") {
+		// world.CELProbes: a Widget needs a Ready=True condition, nothing selects other kinds
+		probe = func(c map[string]any) bool {
+			if k, _ := c["kind"].(string); k != "Widget" {
+				return true
+			}
+			st, _, _, ok := world.Condition(c, "Ready")
+			return ok && st == "True"
+		}
 	}
 	var out []world.Finding
 	bad := func(id, f string, a ...any) {
@@ -180,6 +193,7 @@ type shape struct {
 	classes []string
 	pauses  int
 	drifts  int
+	cel     bool // probes are a CEL rule with an empty failure message
 }
 
 var (
@@ -193,6 +207,7 @@ func shapes(quick bool) []shape {
 			{n: 2, mask: 0, classes: osw.StatusNames, pauses: 0}, {n: 2, mask: 1, classes: three, pauses: 0}, {n: 2, mask: 2, classes: three, pauses: 0}, {n: 2, mask: 3, classes: two, pauses: 0},
 			{n: 3, mask: 0, classes: three, pauses: 0}, {n: 3, mask: 0b010, classes: two, pauses: 0}, {n: 2, mask: 1, classes: two, pauses: 2},
 			{n: 2, mask: 0, classes: two, drifts: 1}, {n: 2, mask: 1, classes: []string{"ready"}, drifts: 1},
+			{n: 2, mask: 0, classes: two, cel: true}, {n: 2, mask: 1, classes: two, cel: true},
 		}
 	}
 	var out []shape
@@ -208,22 +223,26 @@ func shapes(quick bool) []shape {
 		out = append(out, shape{n: 2, mask: m, classes: two, drifts: 1})
 	}
 	out = append(out, shape{n: 2, mask: 0, classes: three, drifts: 2}, shape{n: 3, mask: 0, classes: []string{"ready"}, drifts: 1})
+	for m := uint(0); m < 4; m++ {
+		out = append(out, shape{n: 2, mask: m, classes: two, cel: true})
+	}
+	out = append(out, shape{n: 3, mask: 0b010, classes: two, cel: true})
 	return out
 }
 
 func run(o checks.Opts) *report.Report {
 	rep := report.New("C03", "bfs")
-	rep.Rule = "explicit-state BFS to closure: events = reconcile(ObjectSet), reconcile(each ObjectSetPhase), workload controller setting any existing object's status to a class of the system's alphabet (none/ready/not-ready/stale-observedGeneration), a third party editing a managed object's spec (so that PKO's own revert bumps the generation under a status that was current); one system per phase layout (2-3 phases, local/delegated mask) and status alphabet; monitor on every request of every ObjectSet pass"
+	rep.Rule = "explicit-state BFS to closure: events = reconcile(ObjectSet), reconcile(each ObjectSetPhase), workload controller setting any existing object's status to a class of the system's alphabet (none/ready/not-ready/stale-observedGeneration), a third party editing a managed object's spec (so that PKO's own revert bumps the generation under a status that was current); one system per phase layout (2-3 phases, local/delegated mask), status alphabet and probe set (condition / fieldsEqual probes, or a CEL rule with an empty failure message); monitor on every request of every ObjectSet pass"
 	ss := shapes(o.Quick())
 	rep.Bounds["systems"] = len(ss)
 	for i, s := range ss {
 		if o.Shards > 1 && i%o.Shards != o.Shard {
 			continue
 		}
-		sys := system(s.n, s.mask, s.classes, s.pauses, s.drifts)
-		sys.Name += fmt.Sprintf(" statuses=%d", len(s.classes))
+		sys := system(s.n, s.mask, s.classes, s.pauses, s.drifts, s.cel)
+		sys.Name += fmt.Sprintf(" statuses=%d celProbes=%v", len(s.classes), s.cel)
 		sys.MaxStates = 400000
-		osw.RunBFS(rep, sys, map[string]any{"n": s.n, "mask": s.mask, "classes": s.classes, "pauses": s.pauses, "drifts": s.drifts})
+		osw.RunBFS(rep, sys, map[string]any{"n": s.n, "mask": s.mask, "classes": s.classes, "pauses": s.pauses, "drifts": s.drifts, "cel": s.cel})
 		rep.Samples = append(rep.Samples, map[string]any{"system": sys.Name, "example_path": []string{"reconcile:os:r1", "workload:Widget/a=ready", "reconcile:os:r1", "workload:Widget/a=notready", "reconcile:os:r1"}})
 	}
 	return rep
@@ -240,7 +259,8 @@ func replay(v report.Violation) string {
 	}
 	pauses, _ := v.Params["pauses"].(float64)
 	drifts, _ := v.Params["drifts"].(float64)
-	return osw.ReplayBFS(system(int(n), uint(mask), classes, int(pauses), int(drifts)), v)
+	cel, _ := v.Params["cel"].(bool)
+	return osw.ReplayBFS(system(int(n), uint(mask), classes, int(pauses), int(drifts), cel), v)
 }
 
 func init() {
@@ -253,9 +273,9 @@ func init() {
 		},
 		Subs: []*checks.Sub{{Name: "bfs", Shards: func(t string) int {
 			if t == "thorough" {
-				return 28
+				return 33
 			}
-			return 9
+			return 11
 		}, Run: run, Replay: replay, Parallel: true},
 			{Name: "long-lived", Shards: func(t string) int {
 				if t == "thorough" {
